@@ -400,10 +400,17 @@ def add_ill(prog, rng, kind, tag, avoid=()):
         host["body"].append({"t": "call", "f": names[0], "form": "direct"})
         for k, nm in enumerate(names):
             nxt = names[(k + 1) % n]
-            ek = rng.choice(["call", "call", "keep", "ho"])
+            ek = rng.choice(["call", "call", "keep", "ho", "method"])
             if ek == "ho" and n == 1 and "cycle:self-ho" in avoid:
                 ek = "call"
-            if ek == "call":
+            if ek == "method":
+                # the cycle goes through a method: nm instantiates a class whose method calls the next function
+                kn = f"{pre}k{k}"
+                kf = _ill_fn(prog, kn, mod, "class")
+                kf["end"] = False
+                kf["body"].append({"t": "call", "f": nxt, "form": "direct"})
+                prog["funcs"][nm]["body"].append({"t": "call", "f": kn, "form": "direct", "carg": 1})
+            elif ek == "call":
                 prog["funcs"][nm]["body"].append({"t": "call", "f": nxt, "form": "direct"})
             elif ek == "ho":
                 prog["funcs"][nm]["body"].append({"t": "ho", "f": nxt, "form": "direct"})
